@@ -138,7 +138,19 @@ func runC19(tier string) int {
 		// the -o path sometimes already holds a longer file from an earlier run:
 		// what is generated must not depend on it
 		d.stale = d.outFile && rf.order%3 == 1
-		return makeCase(fmt.Sprintf("%s-i%d-o%d", tag, rf.input, rf.order), ins[rf.input], d, simos.NoFaults(), o.mode, o.seed, 2)
+		c := makeCase(fmt.Sprintf("%s-i%d-o%d", tag, rf.input, rf.order), ins[rf.input], d, simos.NoFaults(), o.mode, o.seed, 2)
+		if ins[rf.input].Rebuild {
+			// library use with a fault in the process history, and with a build
+			// made before the grammar value is optimised (derived from the order's
+			// own seed, so that the case is a function of (input, order))
+			switch v := (o.seed>>7 + uint64(rf.order)) % 4; {
+			case v == 1:
+				c.RebuildVariant, c.RebuildFailAt = 1, int((o.seed>>16)%40000)
+			case v == 2 && contains(ins[rf.input].Flags, "-optimize-grammar"):
+				c.RebuildVariant = 2
+			}
+		}
+		return c
 	}
 	var sessions [][]tooldriver.Case
 	var owner [][]ref
